@@ -194,6 +194,7 @@ class Boot:
             "hashseed": os.environ.get("PYTHONHASHSEED"),
             "decl_events": len(self.events) if self.events is not None else None,
             "units": len(self.snapshot["units"]),
+            "library_locks": len(__import__("sim.simlock").simlock.CREATED),
         }
 
     def full(self):
@@ -207,11 +208,14 @@ def boot(cfg):
     if cfg.get("trace"):
         tracer = BootTracer()
         sys.settrace(tracer)
-    try:
-        import measured  # noqa: F401
+    from sim import simlock
 
-        for m in cfg.get("imports", []):
-            importlib.import_module("measured." + m)
+    try:
+        with simlock.patched(MEASURED_DIR):
+            import measured  # noqa: F401
+
+            for m in cfg.get("imports", []):
+                importlib.import_module("measured." + m)
     finally:
         if tracer is not None:
             sys.settrace(None)
